@@ -23,7 +23,8 @@ ASSUMPTIONS = [
     'at most max_queries free is_ready answers per run, later ones are True',
     'values as in C01 (discrepancies finite or +inf, no NaN); region of known finding C01/inf-tie-placeholder excluded',
 ]
-OUTSIDE = ['real process pools (timing, pickling)', 'dask / ipyparallel clients', 'more batches than the bound (Cut)']
+OUTSIDE = ['real process pools (timing, pickling)', 'dask / ipyparallel clients', 'more batches than the bound (Cut)',
+           'quantile-driven SMC under a symbolic schedule']
 
 
 class use_client:
@@ -136,3 +137,58 @@ MANIFEST = {
                   'pure functions of (batch,row); <=4 batches, <=6..8 free readiness answers; real multiprocessing timing and '
                   'pickling are outside. z3 trusted.',
 }
+
+
+# ---------------------------------------------------------------- multi-round SMC under a symbolic schedule
+
+def h_smc_sched(ctx, bs, n, rounds, K, max_queries=3):
+    """SMC (thresholds) sequentially on the native client vs on SchedClient with max_parallel in {2,3}."""
+    import elfi.methods.utils as mu
+    from symx.npfacade import patched
+    from harness.C07 import smc_env
+    w = World(ctx, bs, max_batches=K, d_specials=(), bounded_prior=False)
+    ths = [ctx.real('thr%d' % r) for r in range(rounds)]
+    trials = [0]
+
+    def bounded(smc):
+        orig_prepare = smc.prepare_new_batch
+
+        def prepare_new_batch(batch_index):
+            if batch_index >= K:
+                raise core.Cut('more than %d batches' % K)
+            return orig_prepare(batch_index)
+        smc.prepare_new_batch = prepare_new_batch
+    with w.env(), patched(smc_env(w)):
+        with use_client(native.Client()):
+            a = elfi.SMC(w.model['d'], batch_size=bs, seed=w.seed, max_parallel_batches=1)
+            bounded(a)
+            ra = a.sample(n, thresholds=list(ths), bar=False)
+        mp = 2 + ctx.choice('max_parallel_minus_2', 2)
+        client = SchedClient(ctx, num_cores=mp, max_queries=max_queries)
+        log = {'updates': [], 'max_pending': 0}
+        with use_client(client):
+            b = elfi.SMC(w.model['d'], batch_size=bs, seed=w.seed, max_parallel_batches=mp)
+            bounded(b)
+            monitor(b, client, log)
+            rb = b.sample(n, thresholds=list(ths), bar=False)
+    ctx.note('max_parallel=%d queries=%d updates=%s submitted=%d' % (mp, client.queries, log['updates'], len(client.submitted)))
+    ctx.claim('same_number_of_populations', len(ra.populations) == len(rb.populations) == rounds)
+    for r, (pa, pb) in enumerate(zip(ra.populations, rb.populations)):
+        for k in ('t', 'd'):
+            ctx.claim('round%d_same_%s' % (r, k), And(*[close(pa.outputs[k][j], pb.outputs[k][j]) for j in range(n)]))
+        ctx.claim('round%d_same_weights' % r, And(*[close(x, y) for x, y in zip(pa.weights, pb.weights)]))
+        ctx.claim('round%d_same_threshold_and_counts' % r,
+                  And(close(pa.threshold, pb.threshold), pa.n_sim == pb.n_sim, pa.n_batches == pb.n_batches))
+    ctx.claim('same_total_n_sim', ra.n_sim == rb.n_sim)
+    ctx.claim('batches_consumed_in_index_order_each_once', log['updates'] == list(range(len(log['updates']))))
+    ctx.claim('never_more_than_max_parallel_outstanding', log['max_pending'] <= mp and client.max_outstanding <= mp)
+    ctx.claim('no_protocol_error(cancelled_result_used/double_fetch)', client.errors == [])
+    ctx.claim('no_task_left_in_client', len(client.tasks) == 0)
+
+
+HARNESSES += [
+    H('smc_thr_bs2_n2_r2', h_smc_sched, dict(bs=2, n=2, rounds=2, K=2), path_timeout=300,
+      bounds='SMC thresholds, 2 rounds, batch_size 2, n=2, <=2 consumed batches, max_parallel in {2,3}, <=3 free is_ready answers'),
+    H('smc_thr_bs1_n2_r2', h_smc_sched, dict(bs=1, n=2, rounds=2, K=4, max_queries=4), path_timeout=300, tiers=('thorough',),
+      bounds='SMC thresholds, 2 rounds, batch_size 1, n=2, <=4 consumed batches, max_parallel in {2,3}, <=4 free answers'),
+]
